@@ -9,6 +9,7 @@
 #include <nitro/except/raise.hpp>
 #include <nitro/format/format.hpp>
 
+#include <cstdint>
 #include <variant>
 
 #include <iomanip>
@@ -306,10 +307,120 @@ static std::string do_exc(const std::string& api, std::vector<std::unique_ptr<Ar
     }
 }
 
+// Arguments of the remaining built-in types (one per case, optionally followed by strings): the text of an argument
+// is what an ostream makes of a value of exactly that static type - a signed/unsigned char is a character, a bool
+// is 1/0, a short is a number.  Token: type letter + hex of the expected text.
+template <typename Fn>
+static void with_ext(const std::string& tok, Fn&& fn)
+{
+    std::string text = nv::unhex(tok.substr(1));
+    switch (tok[0])
+    {
+    case 'b':
+        fn(static_cast<signed char>(text.at(0)));
+        break;
+    case 'u':
+        fn(static_cast<unsigned char>(text.at(0)));
+        break;
+    case 'B':
+        fn(text == "1");
+        break;
+    case 'S':
+        fn(static_cast<short>(std::stol(text)));
+        break;
+    case 'T':
+        fn(static_cast<unsigned short>(std::stoul(text)));
+        break;
+    case 'U':
+        fn(static_cast<unsigned long long>(std::stoull(text)));
+        break;
+    case 'L':
+        fn(static_cast<long>(std::stol(text)));
+        break;
+    case 'N':
+        fn(static_cast<unsigned>(std::stoul(text)));
+        break;
+    case 'F':
+        fn(static_cast<float>(std::stod(text)));
+        break;
+    case 'w':
+        fn(static_cast<std::int8_t>(text.at(0)));
+        break;
+    case 'W':
+        fn(static_cast<std::uint8_t>(text.at(0)));
+        break;
+    default:
+        throw std::runtime_error("bad ext arg type");
+    }
+}
+
+static std::string do_ext(const std::string& api, const std::string& fmt, const std::string& field)
+{
+    auto toks = nv::splitc(field, ',');
+    F f = nitro::format(fmt);
+    std::vector<std::string> rest;
+    for (std::size_t i = 1; i < toks.size(); i++)
+        rest.push_back(nv::unhex(toks[i].substr(1)));
+    with_ext(toks.at(0), [&](auto x) {
+        const auto cx = x;
+        if (api == "ext-pct")
+            f % x;
+        else if (api == "ext-cpct")
+            f % cx;
+        else if (api == "ext-args" && rest.size() == 1)
+        {
+            f.args(x, rest[0]);
+            rest.clear();
+        }
+        else
+            f.args(x);
+    });
+    for (auto& r : rest)
+        f % r;
+    return render("pct", f);
+}
+
+static std::string do_ext_exc(const std::string& api, const std::string& field)
+{
+    auto toks = nv::splitc(field, ',');
+    std::string tail = toks.size() > 1 ? nv::unhex(toks[1].substr(1)) : std::string();
+    std::string r;
+    with_ext(toks.at(0), [&](auto x) {
+        if (api == "ext-ctor")
+        {
+            nitro::except::exception e(x, tail);
+            r = e.what();
+            return;
+        }
+        try
+        {
+            nitro::raise(x, tail);
+        }
+        catch (nitro::except::exception& e)
+        {
+            r = e.what();
+        }
+    });
+    return r;
+}
+
 static std::string handle(const std::vector<std::string>& f)
 {
     const std::string& op = f.at(0);
     earlier_traffic();
+    if (op == "str" && f.at(1).rfind("ext-", 0) == 0)
+    {
+        try
+        {
+            return "ok " + nv::hex(do_ext(f.at(1), nv::unhex(f.at(2)), f.at(3)));
+        }
+        catch (nitro::except::exception&)
+        {
+            return "raise";
+        }
+    }
+    if (op == "exc" && f.at(1).rfind("ext-", 0) == 0)
+        return "ok " + nv::hex(do_ext_exc(f.at(1), f.at(2)));
     if (op == "str")
     {
         auto args = parse_args(f.at(3));
